@@ -78,6 +78,14 @@ class Model:
     def validate_instance(self, s0):
         raise NotImplementedError
 
+    # ---- C11 ------------------------------------------------------------------------------
+    def early_end_explained(self, states, actions):
+        """The episode returned LAST on its k-th step, before the time limit.  states = [s0 .. sk] (host
+        states, sk returned together with LAST), actions = [a1 .. ak].  True: a documented reason other than
+        the time limit holds (solved / all agents finished / collision / ...); False: certainly none holds;
+        None: cannot tell."""
+        raise NotImplementedError
+
     # ---- C12 ------------------------------------------------------------------------------
     def observe_check(self, s, obs):
         raise NotImplementedError
